@@ -130,6 +130,35 @@ def unit_nums(arg):
     return u
 
 
+REREG = {"INT": ("-019", -19), "FLOAT": ("-1.5e1", -15.0), "STRICTFLOAT": ("2.", 2.0), "NUMBER": ("7", 7), "BOOL": ("false", False), "STRING": ('"a\\"b"', 'a"b')}
+
+
+def unit_rereg(arg):
+    """history: a base-type processor is overridden, then the registration is replaced by one without it; the documented
+    behaviour ('registration of new object processors will replace previous') brings the default conversion back -
+    on the same meta-model and on a meta-model created afterwards"""
+    from textx import metamodel_from_str
+
+    u = Unit()
+    for rule in arg:
+        text, expected = REREG[rule]
+        for second in ({}, {"Model": lambda m: None}):
+            cid = ["re-registration", rule, sorted(second)]
+            mm1 = metamodel_from_str("Model: v=%s;" % rule)
+            mm1.register_obj_processors({rule: lambda x: "OVERRIDDEN"})
+            first = mm1.model_from_str(text).v
+            mm1.register_obj_processors(second)
+            again = mm1.model_from_str(text).v
+            fresh = metamodel_from_str("Model: v=%s;" % rule).model_from_str(text).v
+            obs = {"rule": rule, "text": text, "with_override": repr(first), "after_re_registration": repr(again), "fresh_metamodel": repr(fresh), "expected": repr(expected)}
+            ok = first == "OVERRIDDEN" and all(type(v) is type(expected) and v == expected for v in (again, fresh))
+            u.case(cid, nontrivial=True, sample=obs)
+            u.count("re-registration")
+            if not ok:
+                u.fail(cid, {"kind": "rereg", "rule": rule}, sig="re-registration " + rule, what=repr(obs))
+    return u
+
+
 def chunks(it, n):
     it = list(it)
     return [it[i:i + n] for i in range(0, len(it), n)]
@@ -152,6 +181,7 @@ def run(ctx):
         nums += [(rule, t) for t in fl]
     nums += [("BOOL", t) for t in ("True", "true", "False", "false", "0", "1")]
     ctx.pmap(unit_nums, [(cfg, c) for cfg in CONFIGS for c in chunks(nums, 500)])
+    ctx.pmap(unit_rereg, [[r] for r in REREG])
     return {
         "rule": "strings: all over %r up to length %d singly (x2 quote styles) and all ordered pairs up to length %d (x4 quote styles) on one line; "
                 "ints: sign x 1-4 digits over 019 through INT and NUMBER; floats: sign x int part x optional fraction x optional exponent through "
@@ -162,6 +192,9 @@ def run(ctx):
 
 
 def replay(p):
+    if p["kind"] == "rereg":
+        u = unit_rereg([p["rule"]])
+        return not u.fails, {"failures": [f["what"] for f in u.fails]}
     if p["kind"] == "strings":
         return check_strings(tuple(p["ss"]), tuple(p["quotes"]), p.get("cfg", ""))
     exp = eval(p["expected"])
